@@ -157,18 +157,32 @@ def check_sent(pep, wrapper, fails):
     if len(got) != len(want):
         fails.append(('C05', 'sent.count', '%d objects reached the solver, %d declared (metrics %d)' % (len(got), len(want), nm)))
         return
-    for idx, ((gk, go), (wk, wo)) in enumerate(zip(got, want)):
-        if wk == 'metric':
-            # objective <= metric
-            if gk != 'scalar' or go.equality_or_inequality != 'inequality':
-                fails.append(('C05', 'sent.metric', 'metric %d is not sent as an inequality' % idx))
-                continue
-            G1, F1, c1 = expr_coeffs(go.expression)
-            G2, F2, c2 = expr_coeffs(pep.objective - wo)
-            if max(np.max(np.abs(G1 - G2), initial=0), np.max(np.abs(F1 - F2), initial=0), abs(c1 - c2)) > 1e-12:
-                fails.append(('C05', 'sent.metric', 'constraint sent for metric %d is not objective <= metric' % idx))
-        elif gk != wk or go is not wo:
-            fails.append(('C05', 'sent.order', 'object %d sent to the solver is not the %d-th declared one (%s)' % (idx, idx, wk)))
+    # each declared object reaches the solver exactly as often as it was declared, and nothing else does (a multiset: the ORDER of sending is not part of the property)
+    pending = [(wk, wo) for wk, wo in want if wk != 'metric']
+    metrics = [wo for wk, wo in want if wk == 'metric']
+
+    def is_metric_row(go, m):
+        if go.equality_or_inequality != 'inequality':
+            return False
+        G1, F1, c1 = expr_coeffs(go.expression)
+        G2, F2, c2 = expr_coeffs(pep.objective - m)
+        return max(np.max(np.abs(G1 - G2), initial=0), np.max(np.abs(F1 - F2), initial=0), abs(c1 - c2)) <= 1e-12
+    for idx, (gk, go) in enumerate(got):
+        hit = next((k for k, (wk, wo) in enumerate(pending) if wk == gk and wo is go), None)
+        if hit is not None:
+            pending.pop(hit)
+            continue
+        mh = next((k for k, m in enumerate(metrics) if gk == 'scalar' and is_metric_row(go, m)), None)
+        if mh is not None:
+            metrics.pop(mh)
+            continue
+        fails.append(('C05', 'sent.extra', 'object %d sent to the solver (%s %s) was not declared (or was sent more often than declared)' % (idx, gk, go.get_name() if hasattr(go, 'get_name') else '')))
+        break
+    if not fails or fails[-1][1] != 'sent.extra':
+        if pending:
+            fails.append(('C05', 'sent.missing', '%d declared object(s) did not reach the solver as often as declared (first: %s)' % (len(pending), pending[0][0])))
+        if metrics:
+            fails.append(('C05', 'sent.metric', '%d performance metric(s) were not sent as objective <= metric' % len(metrics)))
     # numeric data of every cvxpy row
     rng = np.random.default_rng(7)
     from PEPit.point import Point
